@@ -430,3 +430,47 @@ Fixpoint enc (t : tval) : bytes :=
                        (sort_entries (map (fun e : prim * tval => (fst e, enc (snd e))) m))
   | TInterop => []
   end.
+
+(** * Specification-side predicates used by the theorems *)
+Fixpoint distinctb (l : list bytes) : bool :=
+  match l with
+  | [] => true
+  | x :: r => negb (existsb (bytes_eqb x) r) && distinctb r
+  end.
+
+(** integer within MAX_INT_SIZE magnitude bytes (what IntValFromBigInt accepts) *)
+Definition prim_ok (p : prim) : bool :=
+  match p with
+  | PInt z | PBig z => (byte_len (Z.abs_N z) <=? max_int_size)%nat
+  | _ => true
+  end.
+
+(** The VM's limits on a (tree) value: integers within MAX_INT_SIZE, arrays and structs within
+    MAX_ARRAY_SIZE elements, no interop value, and the map invariant (pairwise distinct key images). *)
+Fixpoint within_limits (t : tval) : bool :=
+  match t with
+  | TPrim p => prim_ok p
+  | TArr l => (length l <=? max_array_size)%nat && forallb within_limits l
+  | TStruct l => (length l <=? max_struct_size)%nat && forallb within_limits l
+  | TMap m => distinctb (map (fun e : prim * tval => prim_bytes (fst e)) m) &&
+              forallb (fun e : prim * tval => prim_ok (fst e) && within_limits (snd e)) m
+  | TInterop => false
+  end.
+
+(** Reachability in a heap: [child h v w] when [w] is an element of the array/struct [v] or a value
+    of the map [v]. A value contains a reference cycle when some reachable value reaches itself. *)
+Definition child (h : heap) (v w : hval) : Prop :=
+  match v with
+  | HArr a | HStruct a => In w (get_list h a)
+  | HMap a => In w (map snd (get_map h a))
+  | _ => False
+  end.
+
+Inductive reach (h : heap) : hval -> hval -> Prop :=
+| reach_refl v : reach h v v
+| reach_step v w x : child h v w -> reach h w x -> reach h v x.
+
+Inductive reach1 (h : heap) : hval -> hval -> Prop :=
+| reach1_step v w x : child h v w -> reach h w x -> reach1 h v x.
+
+Definition cyclic (h : heap) (v : hval) : Prop := exists w, reach h v w /\ reach1 h w w.
